@@ -42,7 +42,7 @@ _peer = {'proc': None}
 
 
 def configs(tier, seed):
-    n = 500 if tier == 'quick' else 8000
+    n = 500 if tier == 'quick' else 4000
     shards = 1 if tier == 'quick' else 6
     out = [{'name': 'py-vs-c-%d' % s, 'impl': 'py', 'mode': 'hyp', 'n': n,
             'shard': s, 'shrink_calls': 120} for s in range(shards)]
